@@ -83,6 +83,23 @@ func (m *c04Model) deliver(label string, frame []byte, seq int, covers []int, o 
 	}
 	Ta := m.mex()
 	m.T = Ta
+	// the engine kept early administrative messages and has consumed them by now: follow it (whether it
+	// keeps them is not constrained by the statement)
+	if st := m.s.E.Store(); st != nil {
+		if got0 := st.inner.NextTargetMsgSeqNum(); got0 > Ta {
+			t := Ta
+			for t < got0 && (m.received[t] || m.adminEarly[t]) {
+				t++
+			}
+			if t == got0 {
+				for n := Ta; n < got0; n++ {
+					m.received[n] = true
+				}
+				Ta = m.mex()
+				m.T = Ta
+			}
+		}
+	}
 	nowOpen := m.anyMissing(Ta)
 	var rrs []RecvMsg
 	for _, x := range r {
@@ -121,6 +138,8 @@ func (m *c04Model) deliver(label string, frame []byte, seq int, covers []int, o 
 				env.Violate("C04/duplicate-request", "ResendRequest 7=%s 16=%s in reaction to a message that did not advance the expected number %d", x.Str(7), x.Str(16), Tb)
 			case x.IntOr(7, -1) != Ta:
 				env.Violate("C04/chunk-begin", "chunk ResendRequest begins at %s, expected number at that moment is %d", x.Str(7), Ta)
+			case !nowOpen:
+				env.Violate("C04/spurious-request", "ResendRequest 7=%s 16=%s although every number the peer has sent (below %d) has arrived by now", x.Str(7), x.Str(16), m.top())
 			default:
 				e := x.IntOr(16, -1)
 				if e != m.marker && e < Ta {
@@ -314,7 +333,14 @@ func runC04(env *Env, tier string) {
 				env.Violate("C04/recovery-stalled", "numbers from %d are still missing but the engine's last ResendRequest 7=%d 16=%d is fully answered", m.T, m.lastRRb, m.lastRRe)
 				break
 			}
-			switch ch.Weighted("recover", []int{8, 3, 2, 2, 1}) {
+			switch ch.Weighted("recover", []int{8, 3, 2, 2, 1, 1}) {
+			case 5: // the peer runs ahead of the requested range: the replay of the first number behind it
+				n := e + 1
+				if n >= p.OutSeq || m.received[n] || !m.plan[n].app || n < m.T {
+					continue
+				}
+				sendNumber(n, true, "replay ahead of the requested range")
+				env.Stat("fault_replay_beyond_requested_range")
 			case 0: // next missing number (in order): replay or gap fill
 				n := missing[0]
 				if m.plan[n].app {
@@ -327,6 +353,15 @@ func runC04(env *Env, tier string) {
 					}
 					if to-n > 1 && ch.Chance("splitfill", 1, 3) {
 						to = n + 1 + ch.Choose("fillrun", to-n-1)
+					} else if to == e+1 && ch.Chance("filloverrun", 1, 3) {
+						// the peer knows that the numbers behind the requested range are administrative as well
+						// and fills over them in one go (NewSeqNo beyond the chunk the engine asked for)
+						for to < p.OutSeq && !m.plan[to].app && !m.received[to] {
+							to++
+						}
+						if to > e+1 {
+							env.Stat("probe_gap_fill_beyond_requested_range")
+						}
 					}
 					var cov []int
 					for k := n; k < to; k++ {
